@@ -13,7 +13,10 @@ package main
 //	1  the CA URL rule (newACMEClient) on generated URL strings, with url.Parse and
 //	   SubjectIsInternal as observed oracles;
 //	2  what a recording proxy sees when the directory is really fetched for such URLs;
-//	3  GetAccount with a configured account key (AccountKeyPEM).
+//	3  GetAccount with a configured account key (AccountKeyPEM), one call;
+//	4  lock-step histories of newACMEClientWithAccount calls with a configured account key (with and
+//	   without e-mail) on one storage, from every initial content of the two account files, with
+//	   faults and crashes, followed by one more call that runs alone without faults (the probe).
 import (
 	"context"
 	"crypto/ecdsa"
@@ -56,11 +59,35 @@ type c20Action struct {
 }
 
 type c20HistIn struct {
-	Kind   string      `json:"kind"` // "hist"
+	Kind   string      `json:"kind"` // "hist" | "kphist"
 	Email  string      `json:"email"`
-	CAs    []int       `json:"cas"` // CA index of every thread
+	CAs    []int       `json:"cas"` // CA index of every thread (kphist: 1 = the issuer has an e-mail, 0 = none)
 	Script []c20Action `json:"script"`
+	KP     *c20KPIn    `json:"kp,omitempty"`
 }
+
+// c20KPIn: initial condition of a history in configured-account-key mode. File contents: 0 absent,
+// 1 the configured key / the registration of its account, 2 another key / registration.
+type c20KPIn struct {
+	Reg0       int  `json:"reg0"`
+	Key0       int  `json:"key0"`
+	Known      bool `json:"known"` // the CA has an account for the configured key
+	ProbeEmail bool `json:"probe_email"`
+}
+
+// c20KP is the per-history setup of the configured-account-key mode.
+type c20KP struct {
+	in     c20KPIn
+	pemK   []byte
+	tp     string // thumbprint of the configured key
+	loc    string // URL of its account
+	regKey string
+	keyKey string
+	probe  int // thread index of the probe (-1 before it starts)
+	split  int // number of events before the probe's start
+}
+
+const c20KPEmail = "k@example.com"
 
 const (
 	c20KLoadReg = 1 + iota
@@ -73,10 +100,12 @@ const (
 	c20KDelKey
 	c20KUnlock
 	c20KOrder
+	c20KLookup
+	c20KList
 )
 
 var c20KindNames = map[int]string{c20KLoadReg: "LoadReg", c20KLoadKey: "LoadKey", c20KLock: "Lock", c20KNewAcct: "newAccount", c20KStoreReg: "StoreReg",
-	c20KStoreKey: "StoreKey", c20KDelReg: "DeleteReg", c20KDelKey: "DeleteKey", c20KUnlock: "Unlock", c20KOrder: "newOrder"}
+	c20KStoreKey: "StoreKey", c20KDelReg: "DeleteReg", c20KDelKey: "DeleteKey", c20KUnlock: "Unlock", c20KOrder: "newOrder", c20KLookup: "lookUp", c20KList: "List"}
 
 type c20Event struct {
 	Tag   int // 0 start 1 op 2 crash 3 reset
@@ -112,6 +141,7 @@ type c20Arrival struct {
 	reqSeq   int
 	err      error
 	acctURL  string
+	res      [2]int // configured-key mode: (registration, key) of the account returned
 }
 
 type c20Reply struct{ fault, crash bool }
@@ -148,6 +178,15 @@ type c20Final struct {
 	LockFree bool     `json:"lock_free"`
 }
 
+func (f *c20Final) probeRes(p int) [2]int {
+	for _, x := range f.Res {
+		if x[0] == p {
+			return [2]int{x[1], x[2]}
+		}
+	}
+	return [2]int{9, 9}
+}
+
 type c20Thread struct {
 	c     int
 	state int // 0 not started, 1 running, 2 at gate, 3 finished
@@ -175,7 +214,8 @@ type c20Run struct {
 	script []c20Action
 	keys   map[string][2]int // storage key -> (ca, 0 reg / 1 key)
 	lockNm string
-	nLockContended int
+	kp     *c20KP
+	b0     [2]int // configured-key mode: the two files when the probe started
 }
 
 func c20AcctIdx(url string) int {
@@ -194,6 +234,19 @@ func (r *c20Run) fileVal(key string) int {
 		return 0
 	}
 	kc := r.keys[key]
+	if r.kp != nil {
+		if kc[1] == 0 {
+			var a acme.Account
+			if json.Unmarshal(v, &a) == nil && a.Location == r.kp.loc {
+				return 1
+			}
+			return 2
+		}
+		if strings.TrimSpace(string(v)) == strings.TrimSpace(string(r.kp.pemK)) {
+			return 1
+		}
+		return 2
+	}
 	if kc[1] == 0 {
 		var a acme.Account
 		if json.Unmarshal(v, &a) != nil {
@@ -251,6 +304,11 @@ func (r *c20Run) storageHook(op *doubles.Op) error {
 		default:
 			a.kind = c20KDelKey
 		}
+	case "List":
+		if r.kp == nil {
+			return nil
+		}
+		a.kind = c20KList
 	case "Lock":
 		a.kind = c20KLock
 	case "Unlock":
@@ -275,6 +333,8 @@ func (r *c20Run) caHook(c int) func(*mockca.Request) *mockca.Problem {
 		switch {
 		case q.Kind == "newAccount" && !q.OnlyReturnExisting:
 			kind = c20KNewAcct
+		case q.Kind == "newAccount" && r.kp != nil:
+			kind = c20KLookup
 		case q.Kind == "newOrder":
 			kind = c20KOrder
 		default:
@@ -299,6 +359,45 @@ func (r *c20Run) caHook(c int) func(*mockca.Request) *mockca.Problem {
 func (r *c20Run) startThread(t int) {
 	th := r.ths[t]
 	cfg, cache := doubles.NewConfig(r.b.Handle(fmt.Sprintf("t%d", t)), certmagic.Config{}, certmagic.CacheOptions{})
+	if r.kp != nil {
+		ca := r.env.cas[0]
+		iss := certmagic.NewACMEIssuer(cfg, certmagic.ACMEIssuer{CA: ca.URL, AccountKeyPEM: string(r.kp.pemK), Agreed: true, TrustedRoots: ca.Roots(),
+			Logger: zap.NewNop(), HTTPProxy: func(*http.Request) (*url.URL, error) { return nil, nil }})
+		cfg.Issuers = []certmagic.Issuer{iss}
+		if th.c == 1 {
+			certmagic.VerifAccountSetEmail(iss, c20KPEmail)
+		} else {
+			certmagic.VerifAccountSetEmail(iss, "")
+		}
+		go func() {
+			defer cache.Stop()
+			a := c20Arrival{t: t, finished: true}
+			func() {
+				defer func() {
+					if p := recover(); p != nil {
+						a.err = fmt.Errorf("PANIC in newACMEClientWithAccount: %v", p)
+					}
+				}()
+				ctx, cancel := context.WithTimeout(context.Background(), 60*time.Second)
+				defer cancel()
+				acct, _, err := certmagic.VerifAccountNewACMEClientWithAccount(ctx, iss, false)
+				a.err = err
+				if err == nil {
+					a.res = [2]int{2, 2}
+					if acct.Location == r.kp.loc {
+						a.res[0] = 1
+					}
+					if acct.PrivateKey != nil {
+						if tp, e := mockca.Thumbprint(acct.PrivateKey.Public()); e == nil && tp == r.kp.tp {
+							a.res[1] = 1
+						}
+					}
+				}
+			}()
+			r.arrive <- a
+		}()
+		return
+	}
 	iss := certmagic.NewACMEIssuer(cfg, certmagic.ACMEIssuer{CA: r.env.cas[0].URL, TestCA: r.env.cas[1].URL, Agreed: true,
 		TrustedRoots: r.env.cas[0].Roots(), Logger: zap.NewNop(), HTTPProxy: func(*http.Request) (*url.URL, error) { return nil, nil }})
 	cfg.Issuers = []certmagic.Issuer{iss}
@@ -349,6 +448,10 @@ func (r *c20Run) await(t int) error {
 					if q.Created {
 						ev.V = c20AcctIdx(q.Account)
 					}
+				case c20KLookup:
+					if q := r.env.cas[ev.KC].Requests()[th.gate.reqSeq]; q.Status == 200 {
+						ev.V = 1
+					}
 				case c20KOrder:
 					q := r.env.cas[ev.KC].Requests()[th.gate.reqSeq]
 					if os.Getenv("C20_DEBUG") != "" {
@@ -368,7 +471,9 @@ func (r *c20Run) await(t int) error {
 		}
 		if a.finished {
 			th.state = 3
-			if a.err == nil {
+			if a.err == nil && r.kp != nil {
+				th.res = a.res
+			} else if a.err == nil {
 				i := c20AcctIdx(a.acctURL)
 				th.res = [2]int{i, i}
 			} else if strings.HasPrefix(a.err.Error(), "PANIC") {
@@ -384,13 +489,47 @@ func (r *c20Run) await(t int) error {
 	}
 }
 
-func c20RunHist(env *c20Env, email string, cas []int, choose c20Chooser, maxSteps int) (*c20Run, *c20Final, error) {
+func c20RunHist(env *c20Env, email string, cas []int, choose c20Chooser, maxSteps int, kpIn *c20KPIn) (*c20Run, *c20Final, error) {
 	for _, c := range env.cas {
 		c.Wipe()
 	}
 	certmagic.VerifAccountResetDiscoveredEmail()
 	r := &c20Run{env: env, b: doubles.NewMemBackend(), email: email, arrive: make(chan c20Arrival), dead: map[int]bool{}, cur: -1, holder: -1,
 		keys: map[string][2]int{}}
+	if kpIn != nil {
+		// configured-account-key mode: one key, its account at the production CA (or not), and
+		// the two account files in one of their nine initial conditions
+		email = c20KPEmail
+		r.email = email
+		ca := env.cas[0]
+		key, _ := ecdsa.GenerateKey(elliptic.P256(), crand.Reader)
+		kp := &c20KP{in: *kpIn, probe: -1, loc: ca.Base + "/acct/1"}
+		kp.pemK, _ = certmagic.PEMEncodePrivateKey(key)
+		kp.tp, _ = mockca.Thumbprint(key.Public())
+		if kpIn.Known {
+			if a := ca.AddAccount(key.Public(), []string{"mailto:" + email}); a.URL != kp.loc {
+				return nil, nil, fmt.Errorf("c20 harness: pre-registered account is %s, expected %s", a.URL, kp.loc)
+			}
+		}
+		_, kp.regKey, kp.keyKey = certmagic.VerifUserKeys(ca.URL, email)
+		switch kpIn.Reg0 {
+		case 1:
+			js, _ := json.Marshal(acme.Account{Status: "valid", Contact: []string{"mailto:" + email}, Location: kp.loc})
+			r.b.Put(kp.regKey, js)
+		case 2:
+			js, _ := json.Marshal(acme.Account{Status: "valid", Contact: []string{"mailto:" + email}, Location: ca.Base + "/acct/77"})
+			r.b.Put(kp.regKey, js)
+		}
+		switch kpIn.Key0 {
+		case 1:
+			r.b.Put(kp.keyKey, kp.pemK)
+		case 2:
+			other, _ := ecdsa.GenerateKey(elliptic.P256(), crand.Reader)
+			p, _ := certmagic.PEMEncodePrivateKey(other)
+			r.b.Put(kp.keyKey, p)
+		}
+		r.kp = kp
+	}
 	for c, ca := range env.cas {
 		_, reg, key := certmagic.VerifUserKeys(ca.URL, email)
 		r.keys[reg] = [2]int{c, 0}
@@ -432,6 +571,94 @@ func c20RunHist(env *c20Env, email string, cas []int, choose c20Chooser, maxStep
 		}()
 		return r, nil, err
 	}
+	apply := func(a c20Action) error {
+		r.script = append(r.script, a)
+		switch a.K {
+		case "start":
+			r.events = append(r.events, c20Event{Tag: 0, T: a.T, C: a.C})
+			r.ths[a.T].state = 1
+			r.mu.Lock()
+			r.cur = a.T
+			r.mu.Unlock()
+			r.startThread(a.T)
+			if err := r.await(a.T); err != nil {
+				return (err)
+			}
+		case "step":
+			th := r.ths[a.T]
+			if th.state != 2 {
+				return (fmt.Errorf("c20 harness: step of thread %d which is not at a gate", a.T))
+			}
+			g := th.gate
+			if g.kind == c20KLock && !a.F && r.holder != -1 {
+				return (fmt.Errorf("c20 harness: Lock step while the lock is held"))
+			}
+			if g.kind == c20KUnlock {
+				a.F = false
+				r.script[len(r.script)-1].F = false
+			}
+			ev := c20Event{Tag: 1, T: a.T, Fault: a.F, Kind: g.kind, KC: g.kc}
+			if !a.F {
+				switch g.kind {
+				case c20KLoadReg, c20KLoadKey:
+					ev.V = r.fileVal(g.key)
+				case c20KList:
+					if r.fileVal(r.kp.regKey) != 0 || r.fileVal(r.kp.keyKey) != 0 {
+						ev.V = 1 // the account folder is listed
+					}
+				case c20KLock:
+					r.holder = a.T
+				case c20KUnlock:
+					r.holder = -1
+				}
+			} else if g.kind == c20KOrder {
+				ev.V = 2
+			}
+			if g.kind == c20KLock || g.kind == c20KUnlock {
+				ev.KC = 0
+			}
+			r.events = append(r.events, ev)
+			th.last = len(r.events) - 1
+			th.state = 1
+			th.nops++
+			r.mu.Lock()
+			r.cur = a.T
+			r.mu.Unlock()
+			th.reply <- c20Reply{fault: a.F}
+			if err := r.await(a.T); err != nil {
+				return (err)
+			}
+		case "crash":
+			th := r.ths[a.T]
+			if th.state != 2 {
+				return (fmt.Errorf("c20 harness: crash of thread %d which is not at a gate", a.T))
+			}
+			r.events = append(r.events, c20Event{Tag: 2, T: a.T})
+			r.mu.Lock()
+			r.dead[a.T] = true
+			r.cur = a.T
+			r.mu.Unlock()
+			if r.holder == a.T {
+				r.b.BreakLock(r.lockNm) // the staleness rule hands the lock on
+				r.holder = -1
+			}
+			th.state = 1
+			th.reply <- c20Reply{crash: true}
+			if err := r.await(a.T); err != nil {
+				return (err)
+			}
+			if th.state != 3 {
+				return (fmt.Errorf("c20 harness: crashed thread %d reached another gate", a.T))
+			}
+			th.res = [2]int{0, 0}
+		case "reset":
+			r.events = append(r.events, c20Event{Tag: 3, C: a.C})
+			env.cas[a.C].Reset()
+		default:
+			return (fmt.Errorf("c20 harness: unknown action %q", a.K))
+		}
+		return nil
+	}
 	for step := 0; ; step++ {
 		var enabled []c20Action
 		unfinished := 0
@@ -461,87 +688,36 @@ func c20RunHist(env *c20Env, email string, cas []int, choose c20Chooser, maxStep
 		if !ok {
 			return abort(fmt.Errorf("c20 harness: chooser has no action (script exhausted or action not enabled)"))
 		}
-		r.script = append(r.script, a)
-		switch a.K {
-		case "start":
-			r.events = append(r.events, c20Event{Tag: 0, T: a.T, C: a.C})
-			r.ths[a.T].state = 1
-			r.mu.Lock()
-			r.cur = a.T
-			r.mu.Unlock()
-			r.startThread(a.T)
-			if err := r.await(a.T); err != nil {
-				return abort(err)
-			}
-		case "step":
-			th := r.ths[a.T]
-			if th.state != 2 {
-				return abort(fmt.Errorf("c20 harness: step of thread %d which is not at a gate", a.T))
-			}
-			g := th.gate
-			if g.kind == c20KLock && !a.F && r.holder != -1 {
-				return abort(fmt.Errorf("c20 harness: Lock step while the lock is held"))
-			}
-			if g.kind == c20KUnlock {
-				a.F = false
-				r.script[len(r.script)-1].F = false
-			}
-			ev := c20Event{Tag: 1, T: a.T, Fault: a.F, Kind: g.kind, KC: g.kc}
-			if !a.F {
-				switch g.kind {
-				case c20KLoadReg, c20KLoadKey:
-					ev.V = r.fileVal(g.key)
-				case c20KLock:
-					r.holder = a.T
-				case c20KUnlock:
-					r.holder = -1
-				}
-			} else if g.kind == c20KOrder {
-				ev.V = 2
-			}
-			if g.kind == c20KLock || g.kind == c20KUnlock {
-				ev.KC = 0
-			}
-			r.events = append(r.events, ev)
-			th.last = len(r.events) - 1
-			th.state = 1
-			th.nops++
-			r.mu.Lock()
-			r.cur = a.T
-			r.mu.Unlock()
-			th.reply <- c20Reply{fault: a.F}
-			if err := r.await(a.T); err != nil {
-				return abort(err)
-			}
-		case "crash":
-			th := r.ths[a.T]
-			if th.state != 2 {
-				return abort(fmt.Errorf("c20 harness: crash of thread %d which is not at a gate", a.T))
-			}
-			r.events = append(r.events, c20Event{Tag: 2, T: a.T})
-			r.mu.Lock()
-			r.dead[a.T] = true
-			r.cur = a.T
-			r.mu.Unlock()
-			if r.holder == a.T {
-				r.b.BreakLock(r.lockNm) // the staleness rule hands the lock on
-				r.holder = -1
-			}
-			th.state = 1
-			th.reply <- c20Reply{crash: true}
-			if err := r.await(a.T); err != nil {
-				return abort(err)
-			}
-			if th.state != 3 {
-				return abort(fmt.Errorf("c20 harness: crashed thread %d reached another gate", a.T))
-			}
-			th.res = [2]int{0, 0}
-		case "reset":
-			r.events = append(r.events, c20Event{Tag: 3, C: a.C})
-			env.cas[a.C].Reset()
-		default:
-			return abort(fmt.Errorf("c20 harness: unknown action %q", a.K))
+		if a.K == "probe" && r.kp != nil {
+			break
 		}
+		if err := apply(a); err != nil {
+			return abort(err)
+		}
+	}
+	if r.kp != nil {
+		// the probe: one more call, alone, no faults, while whatever is left of the others waits
+		r.script = append(r.script, c20Action{K: "probe"})
+		p := len(r.ths)
+		pc := 0
+		if r.kp.in.ProbeEmail {
+			pc = 1
+		}
+		r.ths = append(r.ths, &c20Thread{c: pc, reply: make(chan c20Reply), last: -1})
+		r.kp.probe, r.kp.split = p, len(r.events)
+		r.b0 = [2]int{r.fileVal(r.kp.regKey), r.fileVal(r.kp.keyKey)}
+		if err := apply(c20Action{K: "start", T: p, C: pc}); err != nil {
+			return abort(err)
+		}
+		for n := 0; r.ths[p].state == 2; n++ {
+			if n > 20 {
+				return abort(fmt.Errorf("c20 harness: the probe does not finish"))
+			}
+			if err := apply(c20Action{K: "step", T: p, C: pc}); err != nil {
+				return abort(err)
+			}
+		}
+		r.script = r.script[:len(r.script)-len(r.events)+r.kp.split] // the probe's own steps are implied
 	}
 	fin := &c20Final{LockFree: len(r.b.HeldLocks()) == 0}
 	for c, ca := range env.cas {
@@ -549,10 +725,30 @@ func c20RunHist(env *c20Env, email string, cas []int, choose c20Chooser, maxStep
 		fin.CAs = append(fin.CAs, [3]int{len(ca.Accounts()), r.fileVal(reg), r.fileVal(key)})
 		_ = c
 	}
+	if r.kp != nil {
+		fin.CAs[0][0] = len(env.cas[0].Created())
+	}
 	for t, th := range r.ths {
 		if th.state == 3 {
 			fin.Res = append(fin.Res, [3]int{t, th.res[0], th.res[1]})
 		}
+	}
+	// calls that are still waiting at a gate (configured-key histories may end early): let them go
+	for t, th := range r.ths {
+		if th.state != 2 {
+			continue
+		}
+		r.mu.Lock()
+		r.dead[t] = true
+		r.cur = t
+		r.mu.Unlock()
+		th.reply <- c20Reply{crash: true}
+		for a := range r.arrive {
+			if a.t == t && a.finished {
+				break
+			}
+		}
+		th.state = 3
 	}
 	return r, fin, nil
 }
@@ -581,6 +777,47 @@ func c20HistWire(evs []c20Event, fin *c20Final) string {
 		e.Int(x[0]).Int(x[1]).Int(x[2])
 	}
 	e.Bool(fin.LockFree)
+	return e.String()
+}
+
+// wire of a configured-key history: kind 4 of Account/Check.v
+func c20KPWire(r *c20Run, fin *c20Final) string {
+	e := &emit.Enc{}
+	kp := r.kp
+	e.Int(4).Int(kp.in.Reg0).Int(kp.in.Key0).Bool(kp.in.Known)
+	putEvs := func(evs []c20Event) {
+		e.Len(len(evs))
+		for _, ev := range evs {
+			switch ev.Tag {
+			case 0:
+				e.Int(0).Int(ev.T).Int(ev.C)
+			case 1:
+				e.Int(1).Int(ev.T).Bool(ev.Fault).Int(ev.Kind).Int(ev.KC).Int(ev.V)
+			case 2:
+				e.Int(2).Int(ev.T)
+			case 3:
+				e.Int(3).Int(ev.C)
+			}
+		}
+	}
+	putEvs(r.events[:kp.split])
+	e.Int(kp.probe).Bool(kp.in.ProbeEmail)
+	putEvs(r.events[kp.split+1:])
+	var res [][3]int
+	pres := [2]int{9, 9} // the probe did not finish: no model state answers this
+	for _, x := range fin.Res {
+		if x[0] == kp.probe {
+			pres = [2]int{x[1], x[2]}
+		} else {
+			res = append(res, x)
+		}
+	}
+	e.Len(len(res))
+	for _, x := range res {
+		e.Int(x[0]).Int(x[1]).Int(x[2])
+	}
+	e.Int(pres[0]).Int(pres[1])
+	e.Int(fin.CAs[0][1]).Int(fin.CAs[0][2]).Int(fin.CAs[0][0])
 	return e.String()
 }
 
@@ -806,7 +1043,7 @@ func runC20(tier string, seed int64, outdir string, replay string) error {
 		if feats == nil {
 			feats = map[string]any{}
 		}
-		r, fin, err := c20RunHist(env, email, cas, choose, 600)
+		r, fin, err := c20RunHist(env, email, cas, choose, 600, nil)
 		if err != nil {
 			if r != nil && strings.HasPrefix(err.Error(), "PANIC") {
 				// a panic inside doIssue is an observation, not a harness failure: report the history so
@@ -861,6 +1098,73 @@ func runC20(tier string, seed int64, outdir string, replay string) error {
 		} else {
 			w.Hist(fmt.Sprintf("hist_len=%d0s", len(r.events)/10))
 		}
+		return nil
+	}
+
+	// a history in configured-account-key mode (kind 4); modes: 1 = the issuer has an e-mail
+	addKPHist := func(class string, in c20KPIn, modes []int, choose c20Chooser, feats map[string]any) error {
+		if feats == nil {
+			feats = map[string]any{}
+		}
+		r, fin, err := c20RunHist(env, "", modes, choose, 300, &in)
+		if err != nil {
+			if r != nil && r.kp != nil && r.kp.probe >= 0 && strings.HasPrefix(err.Error(), "PANIC") {
+				fin = &c20Final{CAs: [][3]int{{99, 0, 0}}}
+				feats["panic"] = err.Error()
+			} else {
+				return err
+			}
+		}
+		nf, nc, stores, lookups, left := 0, 0, 0, 0, 0
+		var evs []string
+		for i, e := range r.events {
+			evs = append(evs, e.String())
+			if i >= r.kp.split {
+				continue
+			}
+			switch {
+			case e.Tag == 1 && e.Fault:
+				nf++
+			case e.Tag == 2:
+				nc++
+			}
+			if e.Tag == 1 && !e.Fault && (e.Kind == c20KStoreReg || e.Kind == c20KStoreKey) {
+				stores++
+			}
+			if e.Tag == 1 && e.Kind == c20KLookup {
+				lookups++
+			}
+		}
+		for t := range modes {
+			found := false
+			for _, x := range fin.Res {
+				if x[0] == t {
+					found = true
+				}
+			}
+			if !found {
+				left++
+			}
+		}
+		mid := fmt.Sprintf("%d%d", r.b0[0], r.b0[1]) // files when the probe started
+		desc := map[string]any{"kind": "kphist", "class": class, "threads": len(modes), "reg0": in.Reg0, "key0": in.Key0, "known": in.Known,
+			"faults": nf, "crashes": nc, "in_flight_at_probe": left, "files_at_probe": mid, "probe_email": in.ProbeEmail}
+		for k, v := range feats {
+			desc[k] = v
+		}
+		w.Add(emit.Case{Desc: desc, In: c20HistIn{Kind: "kphist", CAs: modes, Script: r.script, KP: &in},
+			Obs: map[string]any{"events": evs, "final": fin, "probe": r.kp.probe}, Wire: c20KPWire(r, fin), Nontrivial: nf+nc > 0 || len(modes) >= 2 || stores > 0})
+		w.Hist("kind=kphist")
+		w.Hist("class=" + class)
+		w.Hist(fmt.Sprintf("kp_init=%d%d", in.Reg0, in.Key0))
+		w.Hist(fmt.Sprintf("kp_known=%v", in.Known))
+		w.Hist(fmt.Sprintf("kp_threads=%d", len(modes)))
+		w.Hist(fmt.Sprintf("kp_faults=%d", nf))
+		w.Hist(fmt.Sprintf("kp_crashes=%d", nc))
+		w.Hist(fmt.Sprintf("kp_lookups=%d", lookups))
+		w.Hist(fmt.Sprintf("kp_in_flight_at_probe=%d", left))
+		w.Hist("kp_files_at_probe=" + mid)
+		w.Hist(fmt.Sprintf("kp_probe_result=%d%d", fin.probeRes(r.kp.probe)[0], fin.probeRes(r.kp.probe)[1]))
 		return nil
 	}
 
@@ -1101,6 +1405,13 @@ func runC20(tier string, seed int64, outdir string, replay string) error {
 			}
 			cls, _ := rc.Desc["class"].(string)
 			return addHist(cls, in.Email, in.CAs, c20Scripted(in.Script), map[string]any{"replayed": true})
+		case "kphist":
+			var in c20HistIn
+			if err := json.Unmarshal(rc.In, &in); err != nil || in.KP == nil {
+				return fmt.Errorf("c20: bad kphist replay: %v", err)
+			}
+			cls, _ := rc.Desc["class"].(string)
+			return addKPHist(cls, *in.KP, in.CAs, c20Scripted(in.Script), map[string]any{"replayed": true})
 		case "url":
 			var in c20UrlIn
 			json.Unmarshal(rc.In, &in)
@@ -1233,6 +1544,95 @@ func runC20(tier string, seed int64, outdir string, replay string) error {
 			email = ""
 		}
 		if err := addHist(sh.class, email, sh.cas, c20Random(rr, sh), map[string]any{"mode": sh.mode}); err != nil {
+			return err
+		}
+	}
+
+	// ---- configured account key: lock-step histories
+	Pb := c20Action{K: "probe"}
+	// ec5c5dd: a save over the stored account fails at the key file and is rolled back: the key
+	// file is left without its registration; the next call must look the account up again
+	for _, pe := range []bool{true, false} {
+		m := 0
+		if pe {
+			m = 1
+		}
+		if err := addKPHist("kp-key-without-registration", c20KPIn{Reg0: 1, Key0: 1, Known: true, ProbeEmail: pe}, []int{m},
+			c20Scripted(cat(one(St(0, m)), one(F(0)), rep(S(0), 2), one(F(0)), one(S(0)))), map[string]any{"witness": "load-fault-then-store-key-fault"}); err != nil {
+			return err
+		}
+		// two instances start on an empty storage; the second one's save fails at the key file
+		if err := addKPHist("kp-key-without-registration", c20KPIn{Reg0: 0, Key0: 0, Known: true, ProbeEmail: pe}, []int{m, m},
+			c20Scripted(cat(one(St(0, m)), one(St(1, m)), one(S(0)), one(S(1)), rep(S(0), 3), one(S(1)), one(S(1)), one(F(1)), one(S(1)))),
+			map[string]any{"witness": "concurrent-first-use-one-fault"}); err != nil {
+			return err
+		}
+		// the probe runs while another call waits before its rollback Delete
+		if err := addKPHist("kp-probe-with-call-in-flight", c20KPIn{Reg0: 0, Key0: 0, Known: true, ProbeEmail: pe}, []int{m},
+			c20Scripted(cat(one(St(0, m)), rep(S(0), 3), one(F(0)), one(Pb))), map[string]any{"witness": "probe-before-rollback"}); err != nil {
+			return err
+		}
+	}
+	// one call, every initial content of the two files, one fault at each of its operations
+	for reg0 := 0; reg0 < 3; reg0++ {
+		for key0 := 0; key0 < 3; key0++ {
+			for _, known := range []bool{true, false} {
+				for m := 0; m < 2; m++ {
+					for at := -1; at < 7; at++ {
+						if tier != "thorough" && at >= 0 && (reg0*3+key0+at+m)%2 == 1 {
+							continue // quick tier: every second fault position
+						}
+						var sc []c20Action
+						sc = append(sc, St(0, m))
+						for i := 0; i < 8; i++ {
+							if i == at {
+								sc = append(sc, F(0))
+							} else {
+								sc = append(sc, S(0))
+							}
+						}
+						if err := addKPHist("kp-single-call", c20KPIn{Reg0: reg0, Key0: key0, Known: known, ProbeEmail: (reg0+key0+at)%2 == 0}, []int{m},
+							c20Scripted(sc), map[string]any{"fault_at": at}); err != nil {
+							return err
+						}
+					}
+				}
+			}
+		}
+	}
+	nKP := 150
+	if tier == "thorough" {
+		nKP = 2000
+	}
+	for i := 0; i < nKP; i++ {
+		n := 2 + rr.Intn(3)
+		modes := make([]int, n)
+		mm := rr.Intn(3)
+		for t := range modes {
+			switch mm {
+			case 0:
+				modes[t] = 1
+			case 1:
+				modes[t] = rr.Intn(2)
+			}
+		}
+		in := c20KPIn{Reg0: rr.Intn(3), Key0: rr.Intn(3), Known: rr.Intn(5) > 0, ProbeEmail: rr.Intn(2) == 0}
+		if rr.Intn(3) == 0 {
+			in.Reg0, in.Key0 = 0, 0
+		}
+		sh := c20Shape{class: "kp-concurrent", n: n, cas: modes, mode: rr.Intn(3), pFault: 0.2, maxFaults: 1 + rr.Intn(3), maxCrash: rr.Intn(2)}
+		inner := c20Random(rr, sh)
+		pEarly := 0.0
+		if rr.Intn(3) == 0 {
+			pEarly = 0.08
+		}
+		ch := func(enabled []c20Action, ths []*c20Thread, holder int) (c20Action, bool) {
+			if pEarly > 0 && rr.Float64() < pEarly {
+				return Pb, true
+			}
+			return inner(enabled, ths, holder)
+		}
+		if err := addKPHist(sh.class, in, modes, ch, map[string]any{"mode": sh.mode}); err != nil {
 			return err
 		}
 	}
